@@ -29,6 +29,17 @@ pub enum JoinType {
 
 pub type JoinKeys = SmallVec<[DataValue; 2]>;
 
+/// The form in which a join key value is hashed and compared. The `=` of a join condition
+/// converts between integer types, but key values are compared as they are: `INT = BIGINT`
+/// (or `bigint_column = 1`) never matched once it had become a pair of join keys.
+pub fn join_key(value: DataValue) -> DataValue {
+    match value {
+        DataValue::Int16(v) => DataValue::Int64(v as i64),
+        DataValue::Int32(v) => DataValue::Int64(v as i64),
+        v => v,
+    }
+}
+
 impl<const T: JoinType> HashJoinExecutor<T> {
     #[try_stream(boxed, ok = DataChunk, error = ExecutorError)]
     pub async fn execute(self, left: BoxedExecutor, right: BoxedExecutor) {
@@ -44,7 +55,7 @@ impl<const T: JoinType> HashJoinExecutor<T> {
             let chunk = chunk?;
             let keys_chunk = Evaluator::new(&self.left_keys).eval_list(&chunk)?;
             for (row, keys) in chunk.rows().zip(keys_chunk.rows()) {
-                let keys = keys.values().collect();
+                let keys = keys.values().map(join_key).collect();
                 hash_map.entry(keys).or_default().rows.push(row.to_owned());
             }
             tokio::task::consume_budget().await;
@@ -59,7 +70,7 @@ impl<const T: JoinType> HashJoinExecutor<T> {
             let chunk = chunk?;
             let keys_chunk = Evaluator::new(&self.right_keys).eval_list(&chunk)?;
             for (right_row, keys) in chunk.rows().zip(keys_chunk.rows()) {
-                let keys = keys.values().collect::<JoinKeys>();
+                let keys = keys.values().map(join_key).collect::<JoinKeys>();
                 // NULL is not equal to NULL: a key with a NULL never matches
                 let has_null = keys.iter().any(|k| k.is_null());
                 if !has_null && let Some(left_rows) = hash_map.get_mut(&keys) {
@@ -123,7 +134,7 @@ impl HashSemiJoinExecutor {
             let chunk = chunk?;
             let keys_chunk = Evaluator::new(&self.right_keys).eval_list(&chunk)?;
             for row in keys_chunk.rows() {
-                key_set.insert(row.values().collect());
+                key_set.insert(row.values().map(join_key).collect());
             }
             tokio::task::consume_budget().await;
         }
@@ -134,7 +145,9 @@ impl HashSemiJoinExecutor {
             let keys_chunk = Evaluator::new(&self.left_keys).eval_list(&chunk)?;
             let exists = keys_chunk
                 .rows()
-                .map(|key| key_set.contains(&key.values().collect::<JoinKeys>()) ^ self.anti)
+                .map(|key| {
+                    key_set.contains(&key.values().map(join_key).collect::<JoinKeys>()) ^ self.anti
+                })
                 .collect::<Vec<bool>>();
             yield chunk.filter(&exists);
         }
@@ -162,7 +175,7 @@ impl HashSemiJoinExecutor2 {
             let keys_chunk = Evaluator::new(&self.right_keys).eval_list(&chunk)?;
             for (key, row) in keys_chunk.rows().zip(chunk.rows()) {
                 let chunk = key_set
-                    .entry(key.values().collect())
+                    .entry(key.values().map(join_key).collect())
                     .or_insert_with(|| DataChunkBuilder::unbounded(&self.right_types))
                     .push_row(row.values());
                 assert!(chunk.is_none());
@@ -180,7 +193,8 @@ impl HashSemiJoinExecutor2 {
             let keys_chunk = Evaluator::new(&self.left_keys).eval_list(&chunk)?;
             let mut exists = Vec::with_capacity(chunk.cardinality());
             for (key, lrow) in keys_chunk.rows().zip(chunk.rows()) {
-                let b = if let Some(rchunk) = key_set.get(&key.values().collect::<JoinKeys>()) {
+                let key = key.values().map(join_key).collect::<JoinKeys>();
+                let b = if let Some(rchunk) = key_set.get(&key) {
                     let lchunk = self.left_row_to_chunk(&lrow, rchunk.cardinality());
                     let join_chunk = lchunk.row_concat(rchunk.clone());
                     let ArrayImpl::Bool(a) = Evaluator::new(&self.condition).eval(&join_chunk)?
